@@ -1623,7 +1623,10 @@ class Lattice:
         """
         if self._reciprocal_basis is None:
             if self.dim == 1:
-                self._reciprocal_basis = (2 * np.pi / np.linalg.norm(self.basis)).reshape(1, 1)
+                # the basis vector can be embedded in a higher-dimensional space (e.g. 2D for plotting the Ladder):
+                # the reciprocal vector lives in the same space, parallel to the basis vector
+                a = np.asarray(self.basis, dtype=float).reshape(-1)
+                self._reciprocal_basis = (2 * np.pi * a / np.dot(a, a)).reshape(1, -1)
             else:
                 self._reciprocal_basis = (np.linalg.inv(self.basis) * 2 * np.pi).T
         return self._reciprocal_basis
@@ -1633,7 +1636,10 @@ class Lattice:
         """The Brillouin Zone as :class:`SimpleBZ`"""
         if self._BZ is None:
             try:
-                self._BZ = SimpleBZ.from_recip_basis_vectors(self.reciprocal_basis, self.dim)
+                recip = self.reciprocal_basis
+                if self.dim == 1:  # 1D Brillouin zone: only the length of the (possibly embedded) vector matters
+                    recip = np.linalg.norm(recip).reshape(1, 1)
+                self._BZ = SimpleBZ.from_recip_basis_vectors(recip, self.dim)
             except Exception:
                 raise ValueError("Couldn't create the Brillouin Zone")
         return self._BZ
